@@ -303,27 +303,30 @@ def pair_model_recovery(ctx, rng):
         o0 = Symfc(at).compute_basis_set(orders=[2, 3])
         ncoef = sum(o0.basis_set[m].basis_set.shape[1] for m in (2, 3))
         n = 2 * int(np.ceil(ncoef / (3 * N))) + 6
-        d = rng.normal(size=(n, N, 3)) * 0.1
-        f = forces_from_fc(truth, d)
-        for orders in ((2, 3),):
-            for compact in (False, True):
-                ctx.case({"pair_model_recovery": sc["name"], "N": N, "orders": list(orders), "compact": compact, "n_snap": n, "n_coef": int(ncoef)}, nontrivial=True)
-                ctx.count("recovery-pair-model")
-                rep = {"cell": sc["name"], "lattice": np.asarray(sc["lattice"]).tolist(), "positions": np.asarray(sc["positions"]).tolist(), "numbers": [int(z) for z in sc["numbers"]],
-                       "orders": list(orders), "compact": compact, "truth": "derivatives of the pair-potential energy of harness/pairmodel.py"}
-                try:
-                    o = Symfc(at, displacements=d, forces=f)
-                    o.basis_set = dict(o0.basis_set)
-                    o.solve(orders=list(orders), is_compact_fc=compact)
-                except np.linalg.LinAlgError:
-                    ctx.count("skipped-singular")
-                    continue
-                p2s = list(map(int, o0.basis_set[2].p2s_map))
-                for m in orders:
-                    exp = truth[m][p2s] if compact else truth[m]
-                    got = np.asarray(o.force_constants[m])
-                    err = float(np.abs(got - exp).max() / max(np.abs(exp).max(), 1e-300)) if got.shape == exp.shape else float("inf")
-                    if not err <= 1e-7:
-                        ctx.fail("oracle", "C05/oracle/recovery-pair-model", f"{sc['name']} (N={N}) orders {orders} {'compact' if compact else 'full'}: fc{m} of a pair-potential model is not recovered from its exact Taylor forces (relative error {err:.2e})",
-                                 replay={**rep, "order": m, "rel_err": err}, has_input=True)
-                        break
+        from solvers import finite_displacement_dataset
+        datasets_ = [("dense", rng.normal(size=(n, N, 3)) * 0.1), ("finite-displacement", finite_displacement_dataset(rng, N, amp=0.1))]
+        for dkind, d in datasets_:
+          n = len(d)
+          f = forces_from_fc(truth, d)
+          for orders in ((2, 3),):
+            for compact in ((False, True) if dkind == "dense" else (False,)):
+                  ctx.case({"pair_model_recovery": sc["name"], "N": N, "orders": list(orders), "compact": compact, "data": dkind, "n_snap": n, "n_coef": int(ncoef)}, nontrivial=True)
+                  ctx.count("recovery-pair-model")
+                  rep = {"cell": sc["name"], "lattice": np.asarray(sc["lattice"]).tolist(), "positions": np.asarray(sc["positions"]).tolist(), "numbers": [int(z) for z in sc["numbers"]],
+                         "orders": list(orders), "compact": compact, "data": dkind, "truth": "derivatives of the pair-potential energy of harness/pairmodel.py"}
+                  try:
+                      o = Symfc(at, displacements=d, forces=f)
+                      o.basis_set = dict(o0.basis_set)
+                      o.solve(orders=list(orders), is_compact_fc=compact)
+                  except np.linalg.LinAlgError:
+                      ctx.count("skipped-singular")
+                      continue
+                  p2s = list(map(int, o0.basis_set[2].p2s_map))
+                  for m in orders:
+                      exp = truth[m][p2s] if compact else truth[m]
+                      got = np.asarray(o.force_constants[m])
+                      err = float(np.abs(got - exp).max() / max(np.abs(exp).max(), 1e-300)) if got.shape == exp.shape else float("inf")
+                      if not err <= 1e-7:
+                          ctx.fail("oracle", "C05/oracle/recovery-pair-model", f"{sc['name']} (N={N}) orders {orders} {'compact' if compact else 'full'}: fc{m} of a pair-potential model is not recovered from its exact Taylor forces (relative error {err:.2e})",
+                                   replay={**rep, "order": m, "rel_err": err}, has_input=True)
+                          break
